@@ -7,7 +7,7 @@ ID = "C12"
 LEAN_MODULE = "Ctrmml.Properties.C12"
 THEOREMS = ["C12_seek_eq_play", "C12_same_future", "C12_skip_stopped", "alive_antitone", "C12_seek_eq_play_of_alive_last",
             "C12_same_future_of_alive_last", "C12_seek_eq_play_noerr", "C12_obs_enabled", "C12_past_end_playTime_differs",
-            "C12_example_alive", "C12_example_lands_inside"]
+            "C12_example_alive", "C12_example_lands_inside", "C12_seek_eq_play_noerr_clean", "exSong_endsClean"]
 LEVEL = "proof"
 STREAM = "seek.obs"
 CHUNK = 60
@@ -16,7 +16,8 @@ LEVEL_TEXT = ("Machine-checked theorems over the Lean model of Player::skip_tick
               "seek distance n>=1 such that the track is alive (enabled, no error) after n single ticks -- ONE hypothesis at the last earlier tick, since `alive` is proved downward closed "
               "along play ticks -- skip_ticks(n) on a fresh player yields exactly the state of n+1 play_tick() calls, hence the same future events (C12_seek_eq_play_of_alive_last, "
               "C12_same_future_of_alive_last). Without the enabled half: if no error has occurred after n ticks, both paths agree on obs = the whole state while the track is enabled and, "
-              "once it has ended, everything except play_time/on_time/off_time (C12_seek_eq_play_noerr); past the end play_time really differs (C12_past_end_playTime_differs, proved "
+              "once it has ended, everything except play_time/on_time/off_time (C12_seek_eq_play_noerr), and everything except play_time alone when no END event carries a duration "
+              "(C12_seek_eq_play_noerr_clean; invariant: a stopped player has no residual duration); past the end play_time really differs (C12_past_end_playTime_differs, proved "
               "witness; outside the property, n is limited to the track length). The hypothesis is proved by kernel evaluation for a concrete track with a loop, a break, a call and "
               "relative commands and a seek landing inside a note (C12_example_alive, C12_example_lands_inside). Tied to player.cpp by comparing full private-state dumps and 24-tick "
               "futures of both real paths with the model for generated tracks and every n (incl. n past the end).")
